@@ -60,13 +60,18 @@ func (g *c02Gen) node(depth int) *pNode {
 		return n
 	case 4:
 		g.lets++
-		return &pNode{kind: 4, name: c02Names[verifChoose(2)], text: strconv.Itoa(g.lets)}
+		n := &pNode{kind: 4, name: c02Names[verifChoose(2)], text: strconv.Itoa(g.lets)}
+		if verifChoose(2) == 1 {
+			n.has, n.text = true, g.name() // value taken from a variable (possibly unbound: undefined)
+		}
+		return n
 	case 5:
 		return &pNode{kind: 5, name: c02Names[verifChoose(2)], body: g.list(depth-1, 2)}
 	case 6:
 		n := &pNode{kind: 6, data: verifChoose(3)}
 		if verifChoose(2) == 1 {
 			n.has, n.name = true, g.name()
+			n.text = []string{"k", "a"}[verifChoose(2)] // the param may shadow a name the passed data binds
 		}
 		return n
 	case 7:
@@ -101,7 +106,11 @@ func c02Src(ns []*pNode) string {
 			}
 			s += "{/foreach}"
 		case 4:
-			s += "{let $" + n.name + ": '" + n.text + "' /}"
+			if n.has {
+				s += "{let $" + n.name + ": $" + n.text + " /}"
+			} else {
+				s += "{let $" + n.name + ": '" + n.text + "' /}"
+			}
 		case 5:
 			s += "{let $" + n.name + "}" + c02Src(n.body) + "{/let}"
 		case 6:
@@ -113,7 +122,7 @@ func c02Src(ns []*pNode) string {
 				s += " data=\"$m\""
 			}
 			if n.has {
-				s += "}{param k: $" + n.name + " /}{/call}"
+				s += "}{param " + n.text + ": $" + n.name + " /}{/call}"
 			} else {
 				s += " /}"
 			}
@@ -161,7 +170,7 @@ func (e *c02Env) block(ns []*pNode) {
 
 func (e *c02Env) print(k string) {
 	v, ok := e.lookup(k)
-	if !ok {
+	if _, undef := v.(data.Undefined); !ok || undef {
 		e.failed = true // printing an unbound/undefined name has no value
 		return
 	}
@@ -216,7 +225,15 @@ func (e *c02Env) run(ns []*pNode) {
 				e.pop()
 			}
 		case 4:
-			e.set(n.name, data.String(n.text))
+			if n.has {
+				v, ok := e.lookup(n.text)
+				if !ok {
+					v = data.Undefined{}
+				}
+				e.set(n.name, v)
+			} else {
+				e.set(n.name, data.String(n.text))
+			}
 		case 5:
 			saved := e.out
 			e.out = nil
@@ -250,7 +267,7 @@ func (e *c02Env) run(ns []*pNode) {
 				if !ok {
 					v = data.Undefined{}
 				}
-				callee.data["k"] = v
+				callee.data[n.text] = v
 			}
 			// template .u: [{$a ?: 'n'}|{$b ?: 'n'}|{$k ?: 'n'}{let $a: 'L'/}{$a}]
 			callee.push()
